@@ -1853,7 +1853,7 @@ def required_classes(key):
     if key[0] == OCC:
         return {'occupied'}
     if key == (VAC, None, 'insert'):
-        return {'hit', 'append'}
+        return {'append'}
     if key[2] == 'next' and key[1] == 'Iterator' and key in HANDLERS:
         return {'none', 'some'}
     if key[2] in ('size_hint', 'len', 'count') and key in HANDLERS:
